@@ -24,7 +24,8 @@ Theorem eot_block f x c len w :
   len_of w (trk c) = Some len -> accepts w x -> announces_eot shuf w c x ->
   let w' := run_world shuf (S f) w [AboutToFinish; Deliver; Deliver] in
   settled_on w' x /\ pstate w' = Playing /\ a_atf_done w' = false /\ same_setup w w'
-  /\ events w' = EvStarted x :: EvStateChanged Playing Playing :: EvEnded c len :: events w.
+  /\ events w' = EvStarted x :: EvStateChanged Playing Playing :: EvEnded c len :: events w
+  /\ shuffled w' = (if random w && mem_tlt x (shuffled w) then remove_first x (shuffled w) else shuffled w).
 Proof.
   intros [Hq Hp Hpp Hsa Hsp Hpf Hc Hb Ha] Hst Hco Hd Hlen Hacc Hann. rewrite Hst in Ha. destruct Ha as [Hu Has].
   cbv zeta. unfold run_world. cbn [fold_left].
@@ -57,12 +58,13 @@ Proof.
   assert (G3 : get_time_position w3 = (Ok (a_pos w3), fx_gtp w3)).
   { apply (gtp_run w3 x); [exact Hpp|reflexivity|apply Hbx; reflexivity]. }
   rewrite (stepw_eq shuf (S f) Deliver w2' RNone w3 _ _ (run_op_bind_none _ w2' tt w3 D2) G3).
-  split; [|split; [reflexivity|split; [reflexivity|split]]].
+  split; [|split; [reflexivity|split; [reflexivity|split; [|split]]]].
   - constructor; try reflexivity; try assumption.
     + apply Hbx. reflexivity.
     + cbn. split; [reflexivity|exact Has].
   - unfold same_setup. repeat split; reflexivity.
   - cbn. rewrite Hst. reflexivity.
+  - reflexivity.
 Qed.
 
 (* the sequential successor *)
@@ -164,7 +166,7 @@ Proof.
     pose proof (eot_block f x c (lens (trk c)) w Hso Hst (proj1 Hseq) Hd Hlc Hacc Hann) as Hb.
     cbv zeta in Hb.
     set (w1 := run_world shuf (S f) w [AboutToFinish; Deliver; Deliver]) in *.
-    destruct Hb as (Hso1 & Hst1 & Hd1 & (T1 & K1 & L1 & C1 & R1 & P1 & S1 & Sc1) & Ev1).
+    destruct Hb as (Hso1 & Hst1 & Hd1 & (T1 & K1 & L1 & C1 & R1 & P1 & S1 & Sc1) & Ev1 & _).
     assert (Hseq1 : sequential w1).
     { destruct Hseq as (A & B & C & D). unfold sequential. rewrite C1, R1, P1, S1. auto. }
     assert (Hscr1 : script w1 = []) by (rewrite Sc1, Hscr; reflexivity).
@@ -291,6 +293,99 @@ Proof.
   { apply gtp_none_run; [exact Hpp|reflexivity]. }
   rewrite (stepw_eq shuf (S f) Deliver w1' RNone w2 _ _ (run_op_bind_none _ w1' tt w2 D1) G2).
   repeat split; try reflexivity; [exact Hp|cbn; rewrite Hst; reflexivity].
+Qed.
+
+
+(* ---- repeat: after the last entry the first one follows *)
+Lemma next_seq_wrap x mid c w :
+  World.tl w = x :: mid ++ [c] -> NoDup (map tlid (World.tl w)) ->
+  random w = false -> repeat w = true -> consume w = false ->
+  next_track shuf (Some c) w = (Ok (Some x), w).
+Proof.
+  intros Ht Hnd Hr Hrp Hco.
+  unfold next_track, tl_index, bind, get, ret. rewrite Ht. cbv iota. rewrite Hr. cbn [andb].
+  rewrite Hr, Hrp, Hco, Ht. cbn [andb].
+  unfold py_index. change (x :: mid ++ [c]) with ((x :: mid) ++ [c]). rewrite index_from_skip.
+  2: { apply (nodup_prefix_ne (x :: mid) c []). change ((x :: mid) ++ [c]) with (x :: mid ++ [c]). rewrite <- Ht. exact Hnd. }
+  rewrite zlen_app, !zlen_cons. change (zlen (@nil tlt)) with 0.
+  pose proof (zlen_nonneg mid).
+  replace ((0 + (zlen mid + 1) + 1) mod (zlen mid + 1 + (0 + 1))) with 0.
+  2: { replace (0 + (zlen mid + 1) + 1) with (zlen mid + 1 + (0 + 1)) by lia. rewrite Z_mod_same_full. reflexivity. }
+  reflexivity.
+Qed.
+
+Theorem repeat_wraps f (x c : tlt) mid len w :
+  World.tl w = x :: mid ++ [c] -> NoDup (map tlid (World.tl w)) ->
+  consume w = false -> random w = false -> single w = false -> repeat w = true ->
+  settled_on w c -> pstate w = Playing -> a_atf_done w = false -> len_of w (trk c) = Some len ->
+  accepts w x ->
+  let w' := run_world shuf (S f) w [AboutToFinish; Deliver; Deliver] in
+  settled_on w' x /\ pstate w' = Playing /\ World.tl w' = World.tl w
+  /\ events w' = EvStarted x :: EvStateChanged Playing Playing :: EvEnded c len :: events w.
+Proof.
+  intros Ht Hnd Hco Hr Hs Hrp Hso Hst Hd Hlen Hacc.
+  assert (Hann : announces_eot shuf w c x).
+  { intros u l. set (w0 := w <| a_uri := u |> <| last_position := l |>).
+    unfold eot_track. unfold bind at 1. unfold get at 1.
+    change (single w0) with (single w). rewrite Hs. cbn [andb].
+    apply (next_seq_wrap x mid c w0); assumption. }
+  destruct (eot_block f x c len w Hso Hst Hco Hd Hlen Hacc Hann) as (A & B & _ & (T & _) & E & _).
+  cbv zeta. split; [exact A|split; [exact B|split; [exact T|exact E]]].
+Qed.
+
+(* ---- random: one pass visits the shuffle order, entry by entry, each exactly once *)
+Lemma remove_first_head x l : remove_first x (x :: l) = l.
+Proof. cbn. unfold tlt_eqb. rewrite !Z.eqb_refl. reflexivity. Qed.
+
+Lemma mem_tlt_head x l : mem_tlt x (x :: l) = true.
+Proof. unfold mem_tlt. cbn. unfold tlt_eqb. rewrite !Z.eqb_refl. reflexivity. Qed.
+
+Lemma eot_random c x rest w :
+  World.tl w <> [] -> random w = true -> single w = false -> shuffled w = x :: rest ->
+  announces_eot shuf w c x.
+Proof.
+  intros Hne Hr Hs Hsh u l. set (w0 := w <| a_uri := u |> <| last_position := l |>).
+  unfold eot_track. unfold bind at 1. unfold get at 1.
+  change (single w0) with (single w). rewrite Hs. cbn [andb].
+  unfold next_track, bind, get, ret.
+  change (World.tl w0) with (World.tl w). destruct (World.tl w) eqn:Et; [contradiction|].
+  change (random w0) with (random w). change (shuffled w0) with (shuffled w). rewrite Hr, Hsh. cbn. 
+  rewrite Hr, Hsh. reflexivity.
+Qed.
+
+Theorem random_pass f (lens : track -> Z) : forall order c w,
+  World.tl w <> [] -> shuffled w = order ->
+  settled_on w c -> pstate w = Playing -> consume w = false -> random w = true -> single w = false ->
+  a_atf_done w = false -> script w = [] ->
+  (forall y, In y (c :: order) -> kind_of w (trk y) = Playable /\ len_of w (trk y) = Some (lens (trk y))) ->
+  let w' := run_world shuf (S f) w (blocks (length order)) in
+  settled_on w' (last order c) /\ pstate w' = Playing /\ World.tl w' = World.tl w /\ shuffled w' = []
+  /\ events w' = through_events c order lens ++ events w.
+Proof.
+  induction order as [|x order IH]; intros c w Hne Hsh Hso Hst Hco Hr Hs Hd Hscr Hall.
+  - cbn. split; [exact Hso|split; [exact Hst|split; [reflexivity|split; [exact Hsh|reflexivity]]]].
+  - cbv zeta. unfold blocks. cbn [length List.repeat concat]. rewrite run_world_app'.
+    destruct (Hall c (or_introl eq_refl)) as [Hkc Hlc].
+    destruct (Hall x (or_intror (or_introl eq_refl))) as [Hkx Hlx].
+    assert (Hacc : accepts w x) by (split; [exact Hkx|rewrite Hscr; reflexivity]).
+    assert (Hann : announces_eot shuf w c x) by (apply (eot_random c x order w Hne Hr Hs Hsh)).
+    pose proof (eot_block f x c (lens (trk c)) w Hso Hst Hco Hd Hlc Hacc Hann) as Hb.
+    cbv zeta in Hb.
+    set (w1 := run_world shuf (S f) w [AboutToFinish; Deliver; Deliver]) in *.
+    destruct Hb as (Hso1 & Hst1 & Hd1 & (T1 & K1 & L1 & C1 & R1 & P1 & S1 & Sc1) & Ev1 & Sh1).
+    rewrite Hr, Hsh, mem_tlt_head, remove_first_head in Sh1. cbn [andb] in Sh1.
+    assert (Hscr1 : script w1 = []) by (rewrite Sc1, Hscr; reflexivity).
+    assert (Hall1 : forall y, In y (x :: order) -> kind_of w1 (trk y) = Playable /\ len_of w1 (trk y) = Some (lens (trk y))).
+    { intros y Hy. unfold kind_of, len_of. rewrite K1, L1. apply (Hall y). right. exact Hy. }
+    assert (Hne1 : World.tl w1 <> []) by (rewrite T1; exact Hne).
+    specialize (IH x w1 Hne1 Sh1 Hso1 Hst1 (eq_trans C1 Hco) (eq_trans R1 Hr) (eq_trans S1 Hs) Hd1 Hscr1 Hall1).
+    cbv zeta in IH. unfold blocks in IH.
+    destruct IH as (I1 & I2 & I3 & I4 & I5).
+    split; [|split; [exact I2|split; [|split; [exact I4|]]]].
+    + destruct order as [|t order]; [exact I1|]. change (last (x :: t :: order) c) with (last (t :: order) c).
+      rewrite (last_cons_default order t c x). exact I1.
+    + rewrite I3. exact T1.
+    + rewrite I5, Ev1. cbn [through_events block_events]. rewrite <- app_assoc. reflexivity.
 Qed.
 
 End P.
